@@ -237,3 +237,7 @@ CHECKS["C19"] = {"pkg": "racesim", "test": "TestC19", "level": "exploration", "r
     "assumptions": ["schedules are the operating system's, not enumerated: the property is sampled", "single-goroutine sources (configmap poll, resync loop, periodic policy sync) are not run twice concurrently",
                     "the static lock-discipline report named in the property's anchor is a different technique family and is not built"],
     "floors": {"target_ipam": 0.3, "target_galaxy": 0.15}}
+
+_KDIFF = "go test -tags verif ./nf -run TestKernelDiff -rapid.checks=600 -rapid.seed=1 -count=1"
+CHECKS["C14"]["thorough"]["pre_cmds"] = [_KDIFF]
+CHECKS["C15"]["thorough"]["pre_cmds"] = [_KDIFF]
